@@ -66,10 +66,10 @@ func (p *GProv) GetDependencies() []*vh.Dependency {
 // Digraph is the reference model: node set, ordered out-edge lists (duplicates
 // and self-loops allowed), and which provider tag is attached.
 type Digraph struct {
-	N     int           // size of id space
-	Has   []bool        // node exists
-	Out   [][]int       // ordered out edges (dependencies)
-	Prov  []int         // provider tag, 0 = placeholder
+	N    int     // size of id space
+	Has  []bool  // node exists
+	Out  [][]int // ordered out edges (dependencies)
+	Prov []int   // provider tag, 0 = placeholder
 }
 
 func NewDigraph(n int) *Digraph {
